@@ -187,6 +187,30 @@ def fn_qutip(items):
     return {'n': n, 'nt': n, 'viol': viol}
 
 
+def fn_qutip_big(items):
+    """item = [N, kind, i]: to_qutip for N>=3: kind 'mixed' = maximally_mixed_state(N) and identity_map(N).to_state(r) for
+    every r; kind 'bfs' = i-th tableau of the N=3 BFS set (every rank)."""
+    n = 0
+    viol = []
+    for N, kind, i in items:
+        if kind == 'mixed':
+            sts = [('maximally_mixed_state(%d)' % N, lib.pc.maximally_mixed_state(N))]
+            sts += [('identity_map(%d).to_state(%d)' % (N, r), lib.pc.identity_map(N).to_state(r)) for r in range(N + 1)]
+            sts += [('ghz_state(%d).set_r(%d)' % (N, r), lib.pc.ghz_state(N).set_r(r)) for r in range(N + 1)]
+        else:
+            from . import c06
+            if i not in c06._N3:
+                c06._N3[i] = c06._n3_states(i, 0)
+            sts = [('N=3 BFS tableau #%d' % k, lib.ST(*t)) for k, t in enumerate(c06._N3[i])]
+        for nm, st in sts:
+            m = np.asarray(st.to_qutip().full())
+            n += 1
+            want = ref.rho(np.asarray(st.gs).astype(np.int64), np.asarray(st.ps).astype(np.int64), int(st.r))
+            if not np.allclose(m, want, atol=1e-12):
+                viol.append(V('C12/to_qutip/N>=3/r=%d' % int(st.r), [N, kind, i], 'to_qutip of %s (r=%d) has trace %s and differs from 2^-r prod (1+S_a)/2' % (nm, int(st.r), np.trace(m).real)))
+    return {'n': n, 'nt': n, 'viol': viol}
+
+
 def sign_sets(L, full):
     pats = list(itertools.product((0, 2), repeat=L))
     if full or L <= 2:
@@ -211,7 +235,13 @@ def fn_stabstate(items):
                 strs = [('-' if s else '') + ref.g_to_str(g) for g, s in zip(gsL, signs)]
                 codes = [[5 if s else 4] + [int('IXYZ'.index(ch)) for ch in ref.g_to_str(g)] for g, s in zip(gsL, signs)]
                 if pkg == 'py':
+                    shared = lib.PL(gsL, list(signs))
+
+                    def twice(shared=shared):
+                        lib.pc.stabilizer_state(shared)          # first use of the caller's object
+                        return lib.pc.stabilizer_state(shared)   # second use of the SAME object
                     fmts = (('PauliList', lambda: lib.pc.stabilizer_state(lib.PL(gsL, list(signs)))),
+                            ('PauliList-reused', twice),
                             ('strings', lambda: lib.pc.stabilizer_state(*strs)),
                             ('codes', lambda: lib.pc.stabilizer_state(codes)))
                 else:
@@ -226,6 +256,8 @@ def fn_stabstate(items):
                     n += 1
                     nt += int(any(signs))
                     cls = 'signed' if any(signs) else 'unsigned'
+                    if fname == 'PauliList-reused' and not (np.array_equal(np.asarray(shared.gs), np.array(gsL)) and np.array_equal(np.asarray(shared.ps) % 4, np.array(signs) % 4)):
+                        viol.append(V('C12/stabilizer_state/py/argument-modified', item, 'stabilizer_state(%s) changed the PauliList it was given' % strs))
                     bad = ref.tableau_invariant(gs, ps, r)
                     if bad:
                         viol.append(V('C12/stabilizer_state/%s/%s/invalid' % (pkg, fname), item, 'stabilizer_state(%s) invalid: %s' % (strs, bad)))
@@ -276,6 +308,8 @@ def legs(tier):
         stab.tableaux(N)
     out.append(Leg('to_qutip', fn_qutip, [[1, i] for i in range(48)] + [[2, i] for i in range(0, 34560, 1 if tier != 'quick' else 5)], chunk=200,
                    bound='to_qutip of %s tableaux N<=2' % ('all' if tier != 'quick' else 'every 5th of the 34560 + all 48')))
+    out.append(Leg('to_qutip_N3plus', fn_qutip_big, [[N, 'mixed', 0] for N in (3, 4, 5)] + [[3, 'bfs', 402 if tier == 'quick' else 4002]], chunk=1, exhaustive=False, supplementary=True,
+                   bound='to_qutip of maximally mixed / identity_map(N).to_state(r) / ghz.set_r(r) for every r, N=3..5, and of the N=3 BFS tableau set (every rank)'))
     sitems = []
     for N in (1, 2, 3):
         for L in range(1, N + 1):
